@@ -97,13 +97,19 @@ Definition pre_ok (st : store) (c : commit) : bool :=
 
 (* ------------------------------------------------------------------ B. life cycle *)
 
-Record dbstate := { buckets : bool; chain : list Z; pool : list Z }.
+(* `dead` = transactions that can never be confirmed any more: confirmed by a
+   block, or spending an output that a block has spent (a pool transaction
+   conflicting with a block stays in the pool bucket until the next clean-up) *)
+Record dbstate := { buckets : bool; chain : list Z; pool : list Z; dead : list Z }.
 
 Inductive cop :=
 | CreateBuckets
 | AddGenesis (g : Z)
-| ExecBlock (seq : Z) (confirms : list Z)   (* block with this sequence number confirming these txns *)
-| Inject (t : Z).
+| ExecBlock (seq : Z) (confirms kills : list Z)
+    (* block with this sequence number confirming `confirms`; the pool
+       transactions `kills` spend outputs this block spends *)
+| Inject (t : Z)
+| Cleanup.                                   (* unconfirmed.RemoveInvalid *)
 
 Definition remove_all (xs : list Z) (l : list Z) : list Z :=
   filter (fun t => negb (memZ t xs)) l.
@@ -111,30 +117,45 @@ Definition remove_all (xs : list Z) (l : list Z) : list Z :=
 (* each operation is one atomic database commit (or a no-op when refused) *)
 Definition apply_op (s : dbstate) (o : cop) : dbstate :=
   match o with
-  | CreateBuckets => {| buckets := true; chain := chain s; pool := pool s |}
+  | CreateBuckets => {| buckets := true; chain := chain s; pool := pool s; dead := dead s |}
   | AddGenesis g =>
       if buckets s && (Z.of_nat (length (chain s)) =? 0)
-      then {| buckets := true; chain := [g]; pool := pool s |} else s
-  | ExecBlock seq confirms =>
+      then {| buckets := true; chain := [g]; pool := pool s; dead := dead s |} else s
+  | ExecBlock seq confirms kills =>
       if buckets s && (0 <? Z.of_nat (length (chain s))) && (seq =? Z.of_nat (length (chain s)))
-      then {| buckets := true; chain := chain s ++ [seq]; pool := remove_all confirms (pool s) |} else s
+      then {| buckets := true; chain := chain s ++ [seq]; pool := remove_all confirms (pool s);
+              dead := dead s ++ confirms ++ kills |} else s
   | Inject t =>
-      if buckets s && (0 <? Z.of_nat (length (chain s))) && negb (memZ t (pool s))
-      then {| buckets := true; chain := chain s; pool := pool s ++ [t] |} else s
+      (* refused when known already, or when its inputs are spent *)
+      if buckets s && (0 <? Z.of_nat (length (chain s))) && negb (memZ t (pool s)) && negb (memZ t (dead s))
+      then {| buckets := true; chain := chain s; pool := pool s ++ [t]; dead := dead s |} else s
+  | Cleanup =>
+      {| buckets := buckets s; chain := chain s; pool := remove_all (dead s) (pool s); dead := dead s |}
   end.
 
 Definition run (s : dbstate) (ops : list cop) : dbstate := fold_left apply_op ops s.
-Definition empty_db : dbstate := {| buckets := false; chain := []; pool := [] |}.
+Definition empty_db : dbstate := {| buckets := false; chain := []; pool := []; dead := [] |}.
 
-(* visor.New + Init on whatever the file holds *)
-Definition restart (g : Z) (s : dbstate) : dbstate := run s [CreateBuckets; AddGenesis g].
+(* visor.New + Init on whatever the file holds: create what is missing, then
+   drop the pool transactions that became invalid *)
+Definition restart (g : Z) (s : dbstate) : dbstate := run s [CreateBuckets; AddGenesis g; Cleanup].
 
-(* the scripted life-cycle: initialisation, then blocks / injections *)
+(* the periodic pool clean-up every running node performs; "the same state" is
+   compared after it *)
+Definition settle (s : dbstate) : dbstate := apply_op s Cleanup.
+
+(* the scripted life-cycle: initialisation, then blocks / injections / clean-ups *)
 Definition script (g : Z) (work : list cop) : list cop := CreateBuckets :: AddGenesis g :: work.
 
-(* the work list contains no initialisation steps *)
-Definition is_work (o : cop) : bool :=
-  match o with ExecBlock _ _ | Inject _ => true | _ => false end.
+(* a work list as a publisher produces it: no initialisation steps, the blocks
+   carry the sequence numbers n, n+1, ... *)
+Fixpoint wf_work (n : Z) (w : list cop) : bool :=
+  match w with
+  | [] => true
+  | ExecBlock seq _ _ :: r => (seq =? n) && wf_work (n + 1) r
+  | Inject _ :: r | Cleanup :: r => wf_work n r
+  | _ => false
+  end.
 
 (* ------------------------------------------------------------------ C. WalkChain *)
 
